@@ -26,11 +26,11 @@ import (
 const modPath = "github.com/hujm2023/go-sms-protocol"
 
 type world struct {
-	pkgs  map[string]*packages.Package // by import path
-	fset  *token.FileSet
-	funcs map[*types.Func]*ast.FuncDecl
+	pkgs   map[string]*packages.Package // by import path
+	fset   *token.FileSet
+	funcs  map[*types.Func]*ast.FuncDecl
 	infoOf map[*ast.FuncDecl]*types.Info
-	repo  string
+	repo   string
 }
 
 func main() {
@@ -78,6 +78,7 @@ func main() {
 	writeIfChanged(filepath.Join(*out, "layouts.json"), w.layoutsJSON())
 	writeIfChanged(filepath.Join(*out, "Tables.lean"), w.genTables())
 	writeIfChanged(filepath.Join(*out, "Lifecycle.lean"), w.genLifecycle())
+	writeIfChanged(filepath.Join(*out, "Funcs.lean"), w.genFuncs())
 }
 
 func writeIfChanged(path, content string) {
@@ -189,7 +190,8 @@ type env struct {
 	bytesL map[types.Object]string // locals holding a byte-string derived from a field: "hexdec:<path>"
 	writer types.Object
 	reader types.Object
-	loopIx types.Object // index variable of the enclosing counted loop
+	loopIx types.Object              // index variable of the enclosing counted loop
+	alias  map[types.Object]ast.Expr // decode helpers: `raw := b.ReadX(n)` used once in the returned expression
 }
 
 func (e *env) clone() *env {
@@ -205,6 +207,10 @@ func (e *env) clone() *env {
 	c.bytesL = map[types.Object]string{}
 	for k, v := range e.bytesL {
 		c.bytesL[k] = v
+	}
+	c.alias = map[types.Object]ast.Expr{}
+	for k, v := range e.alias {
+		c.alias[k] = v
 	}
 	return &c
 }
@@ -426,6 +432,97 @@ func constInt(e *env, x ast.Expr) (int64, bool) {
 	return 0, false
 }
 
+// bindCall prepares the environment for inlining a call to a library function whose body is
+// available: every parameter is bound to what the argument denotes in the caller — the writer, the
+// reader, (part of) the PDU value (`p.Header`, `&p.Header`, `p`), an integer expression, or the raw
+// input slice.  ok=false if some argument is none of these.
+func (w *world) bindCall(e *env, c *ast.CallExpr) (*ast.FuncDecl, *env, bool) {
+	fn, recv := w.callee(e, c)
+	if fn == nil || recv != nil || fn.Pkg() == nil || !strings.HasPrefix(fn.Pkg().Path(), modPath) {
+		return nil, nil, false
+	}
+	fd := w.funcs[fn]
+	if fd == nil || fd.Body == nil {
+		return nil, nil, false
+	}
+	finfo := w.infoOf[fd]
+	ne := &env{info: finfo, paths: map[types.Object]string{}, locals: map[types.Object]string{}, bytesL: map[types.Object]string{}}
+	idx := 0
+	for _, pf := range fd.Type.Params.List {
+		for _, nm := range pf.Names {
+			if idx >= len(c.Args) {
+				return nil, nil, false
+			}
+			arg := unparen(c.Args[idx])
+			idx++
+			if u, ok := arg.(*ast.UnaryExpr); ok && u.Op == token.AND {
+				arg = unparen(u.X)
+			}
+			obj := finfo.ObjectOf(nm)
+			switch {
+			case e.writer != nil && isObj(e, arg, e.writer):
+				ne.writer = obj
+			case e.reader != nil && isObj(e, arg, e.reader):
+				ne.reader = obj
+			default:
+				if p, ok := w.fieldPath(e, arg); ok {
+					ne.paths[obj] = p
+				} else if x, ok := w.intExpr(e, arg); ok {
+					ne.locals[obj] = x
+				} else if id, ok := arg.(*ast.Ident); ok && isByteSlice(e.info.TypeOf(id)) {
+					// the input image handed on (`data`)
+				} else {
+					return nil, nil, false
+				}
+			}
+		}
+	}
+	if idx != len(c.Args) {
+		return nil, nil, false
+	}
+	return fd, ne, true
+}
+
+func isByteSlice(t types.Type) bool {
+	if t == nil {
+		return false
+	}
+	sl, ok := t.Underlying().(*types.Slice)
+	if !ok {
+		return false
+	}
+	b, ok := sl.Elem().Underlying().(*types.Basic)
+	return ok && b.Kind() == types.Uint8
+}
+
+// deref follows `x` to the expression it was defined by (decode helpers only)
+func (w *world) deref(e *env, x ast.Expr) ast.Expr {
+	x = unparen(x)
+	for i := 0; i < 8; i++ {
+		id, ok := x.(*ast.Ident)
+		if !ok || e.alias == nil {
+			return x
+		}
+		a, ok := e.alias[e.info.ObjectOf(id)]
+		if !ok {
+			return x
+		}
+		x = unparen(a)
+	}
+	return x
+}
+
+// arrayLen: the length of a fixed-size array field such as Header.Sequence ([3]uint32)
+func arrayLen(t types.Type) (int64, types.Type, bool) {
+	if t == nil {
+		return 0, nil, false
+	}
+	if a, ok := t.Underlying().(*types.Array); ok {
+		return a.Len(), a.Elem(), true
+	}
+	return 0, nil, false
+}
+
 // ---------------------------------------------------------------------------------------------
 // IEncode
 
@@ -542,6 +639,20 @@ func (w *world) writerCall(e *env, c *ast.CallExpr, out *encOut, elemVar types.O
 	return false
 }
 
+// usedAsBufferArg: is the slice handed to bytes.NewBuffer (the binary.Write form) rather than filled directly?
+func usedAsBufferArg(fd *ast.FuncDecl, info *types.Info, o types.Object) bool {
+	hit := false
+	ast.Inspect(fd.Body, func(n ast.Node) bool {
+		if c, ok := n.(*ast.CallExpr); ok && types.ExprString(c.Fun) == "bytes.NewBuffer" && len(c.Args) == 1 {
+			if id, ok := unparen(c.Args[0]).(*ast.Ident); ok && info.ObjectOf(id) == o {
+				hit = true
+			}
+		}
+		return !hit
+	})
+	return hit
+}
+
 // inlineHeaderBytes: func (h Header) Bytes() []byte { …; binary.Write(buf, binary.BigEndian, h.X); …; return buf.Bytes() }
 func (w *world) inlineHeaderBytes(fn *types.Func, prefix string) ([]string, bool) {
 	fd := w.funcs[fn]
@@ -551,6 +662,8 @@ func (w *world) inlineHeaderBytes(fn *types.Func, prefix string) ([]string, bool
 	info := w.infoOf[fd]
 	e := &env{info: info, paths: map[types.Object]string{info.ObjectOf(fd.Recv.List[0].Names[0]): prefix}, locals: map[types.Object]string{}, bytesL: map[types.Object]string{}}
 	var ops []string
+	var putBuf types.Object
+	var putLen, putOff int64
 	for _, s := range fd.Body.List {
 		switch st := s.(type) {
 		case *ast.AssignStmt:
@@ -572,13 +685,49 @@ func (w *world) inlineHeaderBytes(fn *types.Func, prefix string) ([]string, bool
 						continue
 					}
 					if id, ok := c.Fun.(*ast.Ident); ok && id.Name == "make" {
+						// b := make([]byte, N) filled by PutUintK calls below
+						if lid, ok := st.Lhs[0].(*ast.Ident); ok && st.Tok == token.DEFINE && len(c.Args) == 2 && isByteSlice(info.TypeOf(st.Lhs[0])) && !usedAsBufferArg(fd, info, info.ObjectOf(lid)) {
+							if n, ok := constInt(e, c.Args[1]); ok {
+								putBuf, putLen = info.ObjectOf(lid), n
+							}
+						}
 						continue
 					}
 				}
 			}
 			return nil, false
+		case *ast.ExprStmt:
+			// binary.BigEndian.PutUint32(b[off:], h.X) into a slice made above: the puts must tile the slice in order
+			if c, ok := st.X.(*ast.CallExpr); ok && len(c.Args) == 2 {
+				if se, ok := c.Fun.(*ast.SelectorExpr); ok && types.ExprString(se.X) == "binary.BigEndian" {
+					k := map[string]int{"PutUint16": 2, "PutUint32": 4, "PutUint64": 8}[se.Sel.Name]
+					if sl, ok := unparen(c.Args[0]).(*ast.SliceExpr); ok && k > 0 && sl.Max == nil && putBuf != nil && isObj(e, sl.X, putBuf) {
+						lo := int64(0)
+						okLo := true
+						if sl.Low != nil {
+							lo, okLo = constInt(e, sl.Low)
+						}
+						okHi := true
+						if sl.High != nil {
+							hi, okH := constInt(e, sl.High)
+							okHi = okH && hi == lo+int64(k)
+						}
+						if okLo && okHi && lo == putOff {
+							if x, ok := w.intExpr(e, c.Args[1]); ok && uintBytes(info.TypeOf(c.Args[1])) == k {
+								ops = append(ops, fmt.Sprintf(".num %d %s", k, x))
+								putOff += int64(k)
+								continue
+							}
+						}
+					}
+				}
+			}
+			return nil, false
 		case *ast.ReturnStmt:
-			if len(st.Results) == 1 && types.ExprString(st.Results[0]) == "buf.Bytes()" {
+			if len(st.Results) == 1 && types.ExprString(st.Results[0]) == "buf.Bytes()" && putBuf == nil {
+				continue
+			}
+			if len(st.Results) == 1 && putBuf != nil && isObj(e, st.Results[0], putBuf) && putOff == putLen {
 				continue
 			}
 			return nil, false
@@ -686,39 +835,53 @@ func (w *world) encStmt(e *env, s ast.Stmt, out *encOut) {
 			if w.writerCall(e, c, out, nil, "") {
 				return
 			}
-			// pkg.WriteHeaderNoLength(p.Header, b) and friends: inline
-			if fn, recv := w.callee(e, c); fn != nil && recv == nil {
-				if fd := w.funcs[fn]; fd != nil && fd.Body != nil && strings.HasPrefix(fn.Name(), "WriteHeader") {
-					finfo := w.infoOf[fd]
-					ne := &env{info: finfo, paths: map[types.Object]string{}, locals: map[types.Object]string{}, bytesL: map[types.Object]string{}}
-					params := fd.Type.Params.List
-					idx := 0
-					ok := true
-					for _, pf := range params {
-						for _, nm := range pf.Names {
-							if idx >= len(c.Args) {
-								ok = false
-								break
-							}
-							arg := c.Args[idx]
-							idx++
-							if isObj(e, arg, e.writer) {
-								ne.writer = finfo.ObjectOf(nm)
-							} else if p, okp := w.fieldPath(e, arg); okp {
-								ne.paths[finfo.ObjectOf(nm)] = p
-							} else {
-								ok = false
+			// pkg.WriteHeaderNoLength(p.Header, b), writeCommon(b, p) …: any library function that receives the writer is inlined
+			if fd, ne, ok := w.bindCall(e, c); ok && ne.writer != nil {
+				w.encStmts(ne, fd.Body.List, out)
+				return
+			}
+		}
+	case *ast.RangeStmt:
+		// for _, part := range h.Sequence { buf.WriteUint32(part) } over a fixed-size array: unrolled
+		if n, elemT, isArr := arrayLen(e.info.TypeOf(st.X)); isArr && st.Value != nil && len(st.Body.List) == 1 {
+			if key, ok := st.Key.(*ast.Ident); ok && key.Name == "_" {
+				if lp, ok := w.fieldPath(e, st.X); ok {
+					if es, ok := st.Body.List[0].(*ast.ExprStmt); ok {
+						if c, ok := es.X.(*ast.CallExpr); ok && len(c.Args) == 1 && isObj(e, c.Args[0], e.info.ObjectOf(st.Value.(*ast.Ident))) {
+							if fn, recv := w.callee(e, c); fn != nil && recv != nil && isObj(e, recv, e.writer) {
+								k := map[string]int{"WriteUint8": 1, "WriteUint16": 2, "WriteUint32": 4, "WriteUint64": 8}[fn.Name()]
+								if k > 0 && uintBytes(elemT) == k {
+									for i := int64(0); i < n; i++ {
+										out.ops = append(out.ops, fmt.Sprintf(".num %d (.fld %s)", k, q(fmt.Sprintf("%s.%d", lp, i))))
+									}
+									return
+								}
 							}
 						}
-					}
-					if ok && ne.writer != nil {
-						w.encStmts(ne, fd.Body.List, out)
-						return
 					}
 				}
 			}
 		}
-	case *ast.RangeStmt:
+		// for _, x := range p.F[:p.Count] { b.WriteFixedLenString(x, n) }: the first Count elements, as the indexed loop
+		if id, ok := st.Key.(*ast.Ident); ok && id.Name == "_" && st.Value != nil && len(st.Body.List) == 1 {
+			if sl, ok := unparen(st.X).(*ast.SliceExpr); ok && sl.Low == nil && sl.High != nil && sl.Max == nil {
+				if lp, ok := w.fieldPath(e, sl.X); ok {
+					if cnt, ok := w.intExpr(e, sl.High); ok {
+						if es, ok := st.Body.List[0].(*ast.ExprStmt); ok {
+							if c, ok := es.X.(*ast.CallExpr); ok {
+								var tmp encOut
+								ev := e.info.ObjectOf(st.Value.(*ast.Ident))
+								if w.writerCall(e, c, &tmp, ev, lp) && len(tmp.ops) == 1 && strings.HasPrefix(tmp.ops[0], "ELEM ") {
+									f := strings.Fields(tmp.ops[0])
+									out.ops = append(out.ops, fmt.Sprintf(".repCount %s %s %s", q(f[1]), cnt, f[2]))
+									return
+								}
+							}
+						}
+					}
+				}
+			}
+		}
 		// for _, x := range p.F { b.WriteFixedLenString(x, n) }
 		if id, ok := st.Key.(*ast.Ident); ok && id.Name == "_" && st.Value != nil && len(st.Body.List) == 1 {
 			if lp, ok := w.fieldPath(e, st.X); ok {
@@ -764,6 +927,13 @@ func (w *world) encStmt(e *env, s ast.Stmt, out *encOut) {
 						return
 					}
 				}
+				// return encodeHeaderOnly(p.Header): a helper that builds the whole image (before any writer exists here)
+				if e.writer == nil {
+					if fd, ne, ok := w.bindCall(e, c); ok {
+						w.encStmts(ne, fd.Body.List, out)
+						return
+					}
+				}
 			}
 		}
 	}
@@ -801,6 +971,9 @@ func (w *world) countedLoop(e *env, st *ast.ForStmt) (types.Object, string, bool
 type decOut struct {
 	ops []string
 	ret string
+	// `if b.Error() != nil { return b.Error() }` has been seen: a following `return parseErr` is the same
+	// decision as lo.Ternary(b.Error() != nil, b.Error(), parseErr)
+	readerErrReturned bool
 }
 
 // readCall translates a reader primitive call to (kind, arg) where kind ∈ num/cstr/fixedTrim/fixedRaw/nbytes.
@@ -841,12 +1014,55 @@ func (w *world) readCall(e *env, x ast.Expr) (kind string, k int, arg string, ok
 
 // assignRead translates `<path> = <rhs>` where rhs reads from the reader.
 func (w *world) assignRead(e *env, path string, lhsT types.Type, rhs ast.Expr) (string, bool) {
-	rhs = unparen(rhs)
+	rhs = w.deref(e, rhs)
+	// d.MsgID = readHexMsgID(b): a library function of the reader whose body is `x := <read>; …; return <expr>`
+	if c, ok := rhs.(*ast.CallExpr); ok && e.reader != nil {
+		if fd, ne, ok := w.bindCall(e, c); ok && ne.reader != nil && len(fd.Body.List) >= 1 && fd.Type.Results != nil && len(fd.Type.Results.List) == 1 {
+			ne.alias = map[types.Object]ast.Expr{}
+			good := true
+			for _, bs := range fd.Body.List[:len(fd.Body.List)-1] {
+				a, ok := bs.(*ast.AssignStmt)
+				if !ok || a.Tok != token.DEFINE || len(a.Lhs) != 1 || len(a.Rhs) != 1 {
+					good = false
+					break
+				}
+				ne.alias[ne.info.ObjectOf(a.Lhs[0].(*ast.Ident))] = a.Rhs[0]
+			}
+			if r, ok := fd.Body.List[len(fd.Body.List)-1].(*ast.ReturnStmt); ok && good && len(r.Results) == 1 {
+				// every alias must be used exactly once in what follows (one read on the wire per definition)
+				uses := map[types.Object]int{}
+				count := func(n ast.Node) {
+					ast.Inspect(n, func(m ast.Node) bool {
+						if id, ok := m.(*ast.Ident); ok {
+							if o := ne.info.Uses[id]; o != nil {
+								if _, isA := ne.alias[o]; isA {
+									uses[o]++
+								}
+							}
+						}
+						return true
+					})
+				}
+				count(r.Results[0])
+				for _, ax := range ne.alias {
+					count(ax)
+				}
+				for o := range ne.alias {
+					if uses[o] != 1 {
+						good = false
+					}
+				}
+				if good {
+					return w.assignRead(ne, path, lhsT, r.Results[0])
+				}
+			}
+		}
+	}
 	// numeric, possibly through a conversion T(b.ReadUintK())
 	inner := rhs
 	if c, ok := rhs.(*ast.CallExpr); ok && len(c.Args) == 1 {
 		if tv, ok := e.info.Types[c.Fun]; ok && tv.IsType() {
-			inner = c.Args[0]
+			inner = w.deref(e, c.Args[0])
 			// string(b.ReadNBytes(..)) / CommandID(b.ReadUint32())
 			if kind, k, arg, ok := w.readCall(e, inner); ok {
 				switch kind {
@@ -862,10 +1078,10 @@ func (w *world) assignRead(e *env, path string, lhsT types.Type, rhs ast.Expr) (
 		}
 		// hex.EncodeToString([]byte(b.ReadCStringNWithoutTrim(n)))
 		if fn, _ := w.callee(e, c); fullName(fn) == "encoding/hex.EncodeToString" {
-			a := unparen(c.Args[0])
+			a := w.deref(e, c.Args[0])
 			if cc, ok := a.(*ast.CallExpr); ok && len(cc.Args) == 1 {
 				if tv, ok := e.info.Types[cc.Fun]; ok && tv.IsType() {
-					if kind, _, arg, ok := w.readCall(e, cc.Args[0]); ok && kind == "fixedRaw" {
+					if kind, _, arg, ok := w.readCall(e, w.deref(e, cc.Args[0])); ok && kind == "fixedRaw" {
 						return fmt.Sprintf(".fixedRawHex %s %s", q(path), arg), true
 					}
 				}
@@ -892,6 +1108,38 @@ func (w *world) assignRead(e *env, path string, lhsT types.Type, rhs ast.Expr) (
 	return "", false
 }
 
+// isReaderCall: `<reader>.<name>()`
+func (w *world) isReaderCall(e *env, x ast.Expr, name string) bool {
+	c, ok := unparen(x).(*ast.CallExpr)
+	if !ok || len(c.Args) != 0 || e.reader == nil {
+		return false
+	}
+	fn, recv := w.callee(e, c)
+	return fn != nil && fn.Name() == name && recv != nil && isObj(e, recv, e.reader)
+}
+
+func (w *world) isParseErr(e *env, x ast.Expr) bool {
+	id, ok := unparen(x).(*ast.Ident)
+	return ok && e.locals[e.info.ObjectOf(id)] == "PARSEERR"
+}
+
+// isReaderErrNotNil: `<reader>.Error() != nil`
+func (w *world) isReaderErrNotNil(e *env, x ast.Expr) bool {
+	b, ok := unparen(x).(*ast.BinaryExpr)
+	if !ok || b.Op != token.NEQ {
+		return false
+	}
+	id, ok := unparen(b.Y).(*ast.Ident)
+	return ok && id.Name == "nil" && w.isReaderCall(e, b.X, "Error")
+}
+
+// isReaderOrParse: lo.Ternary(b.Error() != nil, b.Error(), parseErr)
+func (w *world) isReaderOrParse(e *env, c *ast.CallExpr) bool {
+	fn, _ := w.callee(e, c)
+	return fn != nil && fn.Name() == "Ternary" && fn.Pkg() != nil && fn.Pkg().Path() == "github.com/samber/lo" && len(c.Args) == 3 &&
+		w.isReaderErrNotNil(e, c.Args[0]) && w.isReaderCall(e, c.Args[1], "Error") && w.isParseErr(e, c.Args[2])
+}
+
 func (w *world) decStmts(e *env, stmts []ast.Stmt, out *decOut) {
 	for i := 0; i < len(stmts); i++ {
 		s := stmts[i]
@@ -901,6 +1149,23 @@ func (w *world) decStmts(e *env, stmts []ast.Stmt, out *decOut) {
 				if id, ok := c.Fun.(*ast.Ident); ok && id.Name == "make" && len(c.Args) == 2 {
 					if lp, ok := w.fieldPath(e, as.Lhs[0]); ok {
 						if cnt, ok := w.intExpr(e, c.Args[1]); ok {
+							// for i := range p.F { p.F[i] = b.ReadCStringN(n) } over the slice just made
+							if rs, ok := stmts[i+1].(*ast.RangeStmt); ok && rs.Tok == token.DEFINE && rs.Value == nil && rs.Key != nil && len(rs.Body.List) == 1 {
+								if rp, ok := w.fieldPath(e, rs.X); ok && rp == lp {
+									ix := e.info.ObjectOf(rs.Key.(*ast.Ident))
+									if ba, ok := rs.Body.List[0].(*ast.AssignStmt); ok && ba.Tok == token.ASSIGN && len(ba.Lhs) == 1 {
+										if ie, ok := ba.Lhs[0].(*ast.IndexExpr); ok && isObj(e, ie.Index, ix) {
+											if lp2, ok := w.fieldPath(e, ie.X); ok && lp2 == lp {
+												if kind, _, arg, ok := w.readCall(e, ba.Rhs[0]); ok && kind == "fixedTrim" {
+													out.ops = append(out.ops, fmt.Sprintf(".repMake %s %s %s", q(lp), cnt, arg))
+													i++
+													continue
+												}
+											}
+										}
+									}
+								}
+							}
 							if fs, ok := stmts[i+1].(*ast.ForStmt); ok {
 								if ix, cnt2, ok := w.countedLoop(e, fs); ok && cnt2 == cnt && len(fs.Body.List) == 1 {
 									if ba, ok := fs.Body.List[0].(*ast.AssignStmt); ok && ba.Tok == token.ASSIGN && len(ba.Lhs) == 1 {
@@ -932,6 +1197,24 @@ func (w *world) decStmt(e *env, s ast.Stmt, out *decOut) {
 			return
 		}
 	case *ast.IfStmt:
+		// if b.Error() != nil { return b.Error() }   |   if err := b.Error(); err != nil { return err }
+		if st.Else == nil && len(st.Body.List) == 1 && e.reader != nil {
+			if r, ok := st.Body.List[0].(*ast.ReturnStmt); ok && len(r.Results) == 1 {
+				if st.Init == nil && w.isReaderErrNotNil(e, st.Cond) && w.isReaderCall(e, r.Results[0], "Error") {
+					out.readerErrReturned = true
+					return
+				}
+				if a, ok := st.Init.(*ast.AssignStmt); ok && a.Tok == token.DEFINE && len(a.Lhs) == 1 && len(a.Rhs) == 1 && w.isReaderCall(e, a.Rhs[0], "Error") {
+					errObj := e.info.ObjectOf(a.Lhs[0].(*ast.Ident))
+					if b, ok := unparen(st.Cond).(*ast.BinaryExpr); ok && b.Op == token.NEQ && isObj(e, b.X, errObj) && isObj(e, r.Results[0], errObj) {
+						if id, ok := unparen(b.Y).(*ast.Ident); ok && id.Name == "nil" {
+							out.readerErrReturned = true
+							return
+						}
+					}
+				}
+			}
+		}
 		// if len(data) < N { return <err> }
 		if st.Init == nil && st.Else == nil && len(st.Body.List) == 1 {
 			if b, ok := st.Cond.(*ast.BinaryExpr); ok && b.Op == token.LSS {
@@ -954,7 +1237,8 @@ func (w *world) decStmt(e *env, s ast.Stmt, out *decOut) {
 	case *ast.DeclStmt:
 		// var parseErr error
 		if gd, ok := st.Decl.(*ast.GenDecl); ok && gd.Tok == token.VAR && len(gd.Specs) == 1 {
-			if vs, ok := gd.Specs[0].(*ast.ValueSpec); ok && len(vs.Values) == 0 && types.ExprString(vs.Type) == "error" {
+			if vs, ok := gd.Specs[0].(*ast.ValueSpec); ok && len(vs.Values) == 0 && len(vs.Names) == 1 && vs.Type != nil && types.ExprString(vs.Type) == "error" {
+				e.locals[e.info.ObjectOf(vs.Names[0])] = "PARSEERR"
 				return
 			}
 		}
@@ -966,22 +1250,34 @@ func (w *world) decStmt(e *env, s ast.Stmt, out *decOut) {
 					return
 				}
 				// decodeErr := lo.Ternary(b.Error() != nil, b.Error(), parseErr)
-				if fn, _ := w.callee(e, c); fn != nil && fn.Name() == "Ternary" && len(c.Args) == 3 {
-					rn := e.reader.Name()
-					if types.ExprString(c.Args[0]) == rn+".Error() != nil" && types.ExprString(c.Args[1]) == rn+".Error()" && types.ExprString(c.Args[2]) == "parseErr" {
-						e.locals[e.info.ObjectOf(st.Lhs[0].(*ast.Ident))] = "TERNARY"
-						return
-					}
+				if w.isReaderOrParse(e, c) {
+					e.locals[e.info.ObjectOf(st.Lhs[0].(*ast.Ident))] = "TERNARY"
+					return
+				}
+			}
+		}
+		// n := int(p.Count): an integer local; it stays valid until the field it was computed from is assigned again
+		if len(st.Lhs) == 1 && len(st.Rhs) == 1 && st.Tok == token.DEFINE && e.reader != nil {
+			if id, ok := st.Lhs[0].(*ast.Ident); ok {
+				if x, ok := w.intExpr(e, st.Rhs[0]); ok {
+					e.locals[e.info.ObjectOf(id)] = x
+					return
 				}
 			}
 		}
 		if len(st.Lhs) == 1 && len(st.Rhs) == 1 && st.Tok == token.ASSIGN {
 			if p, ok := w.fieldPath(e, st.Lhs[0]); ok {
+				for o, x := range e.locals {
+					if strings.Contains(x, "(.fld "+q(p)+")") || strings.Contains(x, "(.lenOf "+q(p)+")") {
+						delete(e.locals, o)
+					}
+				}
 				lt := e.info.TypeOf(st.Lhs[0])
 				// p.Header = pkg.ReadHeader(b)
 				if c, ok := st.Rhs[0].(*ast.CallExpr); ok {
 					fn, recv := w.callee(e, c)
-					if fn != nil && recv == nil && fn.Name() == "ReadHeader" && len(c.Args) == 1 && isObj(e, c.Args[0], e.reader) {
+					if fn != nil && recv == nil && fn.Pkg() != nil && strings.HasPrefix(fn.Pkg().Path(), modPath) && len(c.Args) == 1 && isObj(e, c.Args[0], e.reader) &&
+						fullName(fn) != modPath+"/smpp.ReadTLVs1" && fullName(fn) != modPath+"/smgp.ReadOptions" {
 						if ops, ok := w.inlineReadHeader(fn, p); ok {
 							out.ops = append(out.ops, ops...)
 							return
@@ -1024,15 +1320,50 @@ func (w *world) decStmt(e *env, s ast.Stmt, out *decOut) {
 		if len(st.Lhs) == 2 && len(st.Rhs) == 1 && st.Tok == token.ASSIGN {
 			if c, ok := st.Rhs[0].(*ast.CallExpr); ok {
 				if fn, _ := w.callee(e, c); fullName(fn) == modPath+"/smgp.ParseOptions" && len(c.Args) == 1 {
-					if p, ok := w.fieldPath(e, st.Lhs[0]); ok && types.ExprString(st.Lhs[1]) == "parseErr" &&
-						types.ExprString(c.Args[0]) == e.reader.Name()+".Bytes()" {
+					if p, ok := w.fieldPath(e, st.Lhs[0]); ok && w.isParseErr(e, st.Lhs[1]) && w.isReaderCall(e, c.Args[0], "Bytes") {
 						out.ops = append(out.ops, fmt.Sprintf(".optsParse %s", q(p)))
 						return
 					}
 				}
 			}
 		}
+	case *ast.RangeStmt:
+		// for i := range h.Sequence { h.Sequence[i] = r.ReadUint32() } over a fixed-size array: unrolled
+		if n, elemT, isArr := arrayLen(e.info.TypeOf(st.X)); isArr && st.Value == nil && st.Key != nil && st.Tok == token.DEFINE && len(st.Body.List) == 1 {
+			if lp, ok := w.fieldPath(e, st.X); ok {
+				ix := e.info.ObjectOf(st.Key.(*ast.Ident))
+				if ba, ok := st.Body.List[0].(*ast.AssignStmt); ok && ba.Tok == token.ASSIGN && len(ba.Lhs) == 1 && len(ba.Rhs) == 1 {
+					if ie, ok := ba.Lhs[0].(*ast.IndexExpr); ok && isObj(e, ie.Index, ix) {
+						if lp2, ok := w.fieldPath(e, ie.X); ok && lp2 == lp {
+							if kind, k, _, ok := w.readCall(e, ba.Rhs[0]); ok && kind == "num" && uintBytes(elemT) == k {
+								for i := int64(0); i < n; i++ {
+									out.ops = append(out.ops, fmt.Sprintf(".num %d %s", k, q(fmt.Sprintf("%s.%d", lp, i))))
+								}
+								return
+							}
+						}
+					}
+				}
+			}
+		}
 	case *ast.ForStmt:
+		// for i<cnt { p.F = append(p.F, b.ReadCStringN(n)) }
+		if _, cnt, ok := w.countedLoop(e, st); ok && len(st.Body.List) == 1 {
+			if a2, ok := st.Body.List[0].(*ast.AssignStmt); ok && a2.Tok == token.ASSIGN && len(a2.Lhs) == 1 && len(a2.Rhs) == 1 {
+				if lp, ok := w.fieldPath(e, a2.Lhs[0]); ok {
+					if c, ok := a2.Rhs[0].(*ast.CallExpr); ok && len(c.Args) == 2 {
+						if id, ok := c.Fun.(*ast.Ident); ok && id.Name == "append" {
+							if lp2, ok := w.fieldPath(e, c.Args[0]); ok && lp2 == lp {
+								if kind, _, arg, ok := w.readCall(e, c.Args[1]); ok && kind == "fixedTrim" {
+									out.ops = append(out.ops, fmt.Sprintf(".repAppend %s %s %s", q(lp), cnt, arg))
+									return
+								}
+							}
+						}
+					}
+				}
+			}
+		}
 		// for i<cnt { tmp := b.ReadCStringN(n); p.F = append(p.F, tmp) }
 		if _, cnt, ok := w.countedLoop(e, st); ok && len(st.Body.List) == 2 {
 			if a1, ok := st.Body.List[0].(*ast.AssignStmt); ok && a1.Tok == token.DEFINE && len(a1.Lhs) == 1 {
@@ -1065,12 +1396,35 @@ func (w *world) decStmt(e *env, s ast.Stmt, out *decOut) {
 					out.ret = ".readerOrParse"
 					return
 				}
+				if e.locals[e.info.ObjectOf(id)] == "PARSEERR" && out.readerErrReturned {
+					out.ret = ".readerOrParse"
+					return
+				}
+			}
+			if c, ok := r.(*ast.CallExpr); ok && w.isReaderOrParse(e, c) {
+				out.ret = ".readerOrParse"
+				return
 			}
 			if c, ok := r.(*ast.CallExpr); ok {
 				if fn, recv := w.callee(e, c); fn != nil && fn.Name() == "Error" && recv != nil && isObj(e, recv, e.reader) {
 					out.ret = ".readerErr"
 					return
 				}
+				// return decodeHeaderOnly(data, &p.Header): a helper that does the rest of the decoding with its own reader
+				if e.reader == nil {
+					if fd, ne, ok := w.bindCall(e, c); ok {
+						w.decStmts(ne, fd.Body.List, out)
+						return
+					}
+				}
+			}
+		}
+	case *ast.ExprStmt:
+		// readCommon(b, p): a library function that receives the reader is inlined (it must not return anything that is dropped here)
+		if c, ok := st.X.(*ast.CallExpr); ok && e.reader != nil {
+			if fd, ne, ok := w.bindCall(e, c); ok && ne.reader != nil && (fd.Type.Results == nil || len(fd.Type.Results.List) == 0) {
+				w.decStmts(ne, fd.Body.List, out)
+				return
 			}
 		}
 	}
@@ -1112,6 +1466,8 @@ func (w *world) inlineReadHeader(fn *types.Func, prefix string) ([]string, bool)
 				}
 			}
 			return nil, false
+		case *ast.RangeStmt:
+			w.decStmt(e, s, &out)
 		default:
 			return nil, false
 		}
@@ -1199,12 +1555,12 @@ func leanList(items []string, indent string) string {
 }
 
 type pduJSON struct {
-	Name   string     `json:"name"`
+	Name   string      `json:"name"`
 	Fields [][2]string `json:"fields"`
-	Enc    []string   `json:"enc"`
-	Fin    string     `json:"fin"`
-	Dec    []string   `json:"dec"`
-	Ret    string     `json:"ret"`
+	Enc    []string    `json:"enc"`
+	Fin    string      `json:"fin"`
+	Dec    []string    `json:"dec"`
+	Ret    string      `json:"ret"`
 }
 
 var jsonPdus []pduJSON
